@@ -16,8 +16,8 @@ theorem abs_canonG (nb : Option Nat) (s : Slots) : (canonG nb s).abs = s := by
 
 @[simp] theorem length_abs (c : FastOps) : c.abs.length = c.ops.length := by simp [FastOps.abs]
 
-theorem occ_abs (c : FastOps) (q : Nat) : occ c.abs q = (c.getNode q).isSome := by
-  unfold occ; rw [slotAt_abs, FastOps.getPth]; cases c.getNode q <;> rfl
+theorem occ_abs (c : FastOps) (q : Nat) : occAt c.abs q = (c.getNode q).isSome := by
+  unfold occAt; rw [slotAt_abs, FastOps.getPth]; cases c.getNode q <;> rfl
 
 theorem writeA_length (s : Slots) (p : Nat) (new : Option (Option Op)) : (writeA s p new).length = s.length := by
   cases new <;> simp [writeA]
@@ -31,7 +31,7 @@ theorem advance_lastP (c : FastOps) (p : Nat) (a : Cursor) :
 
 theorem GInv_node {nb : Option Nat} {c : FastOps} (h : GInv nb c) {q : Nat} {nd : Node}
     (hq : c.getNode q = some nd) :
-    nd.previousP = prevOcc (occ c.abs) q ∧ nd.nextP = nextOcc (occ c.abs) c.ops.length q := by
+    nd.previousP = prevOcc (occAt c.abs) q ∧ nd.nextP = nextOcc (occAt c.abs) c.ops.length q := by
   have := congrArg (fun d => d.getNode q) h
   simp only [getNode_g, hq, getNode_canonG, slotAt_abs, getPth, Option.map_some] at this
   have e1 := congrArg Node.previousP (Option.some.inj this)
@@ -41,14 +41,14 @@ theorem GInv_node {nb : Option Nat} {c : FastOps} (h : GInv nb c) {q : Nat} {nd 
 
 /-- Appendix B step 4/5 (global chain): one `mutate_p` -/
 theorem mutatePWith_global {nb : Option Nat} {c : FastOps} {p : Nat} {new : Option (Option Op)}
-    {a : Cursor} (h : GInv nb c) (hpL : p < c.ops.length) (ha : a.lastP = prevOcc (occ c.abs) p) :
+    {a : Cursor} (h : GInv nb c) (hpL : p < c.ops.length) (ha : a.lastP = prevOcc (occAt c.abs) p) :
     GInv nb (mutatePWith c p new a).1 ∧ (mutatePWith c p new a).1.abs = writeA c.abs p new ∧
-      (mutatePWith c p new a).2.lastP = prevOcc (occ (writeA c.abs p new)) (p + 1) := by
+      (mutatePWith c p new a).2.lastP = prevOcc (occAt (writeA c.abs p new)) (p + 1) := by
   have key : ∀ c' : FastOps, GInv nb c' → c'.abs = writeA c.abs p new →
-      (advance c' p a).lastP = prevOcc (occ (writeA c.abs p new)) (p + 1) := by
+      (advance c' p a).lastP = prevOcc (occAt (writeA c.abs p new)) (p + 1) := by
     intro c' _ habs
     rw [advance_lastP, prevOcc_succ, ← habs, ← slotAt_abs]
-    have hprev : prevOcc (occ c'.abs) p = prevOcc (occ c.abs) p := by
+    have hprev : prevOcc (occAt c'.abs) p = prevOcc (occAt c.abs) p := by
       rw [habs]
       cases new with
       | none => rfl
@@ -56,8 +56,8 @@ theorem mutatePWith_global {nb : Option Nat} {c : FastOps} {p : Nat} {new : Opti
         simp only [writeA]
         rw [occ_set _ _ _ (by simpa using hpL), prevOcc_upd_self]
     cases hs : slotAt c'.abs p with
-    | none => simp [occ, hs, hprev, ha]
-    | some o => simp [occ, hs]
+    | none => simp [occAt, hs, hprev, ha]
+    | some o => simp [occAt, hs]
   cases new with
   | none =>
     simp only [mutatePWith]
@@ -128,20 +128,20 @@ theorem fillWalk_lastP_none (c : FastOps) (fuel : Nat) (q : Nat) (node : Node) (
 /-- `fill_args_at_p` finds the scan `last_p`, provided its early exit (`unfilled = 0`) is only
 taken when there is no op below `p` (the one fact about `var_ends` the global chain needs) -/
 theorem fillArgsAtP_lastP {nb : Option Nat} {c : FastOps} (h : GInv nb c) (p : Nat) (a : Cursor)
-    (ha : a.lastP = none) (hu : a.unfilled = 0 → prevOcc (occ c.abs) p = none) :
-    (fillArgsAtP c p a).lastP = prevOcc (occ c.abs) p := by
+    (ha : a.lastP = none) (hu : a.unfilled = 0 → prevOcc (occAt c.abs) p = none) :
+    (fillArgsAtP c p a).lastP = prevOcc (occAt c.abs) p := by
   unfold fillArgsAtP
   by_cases hu0 : a.unfilled > 0
   · simp only [hu0, if_true]
     cases hp : c.getNode p with
     | none =>
       simp only []
-      have hs : scanDown c p = prevOcc (occ c.abs) p := by
+      have hs : scanDown c p = prevOcc (occAt c.abs) p := by
         unfold scanDown
         apply prevOcc_congr
         intro k; rw [occ_abs]
       rw [hs]
-      cases hprev : prevOcc (occ c.abs) p with
+      cases hprev : prevOcc (occAt c.abs) p with
       | none => simp [fillWalk, ha]
       | some q =>
         obtain ⟨_, h2⟩ := prevOcc_lt hprev
@@ -169,7 +169,7 @@ theorem sweepLoop_global {τ : Type} {nb : Option Nat}
     (f : FastOps → Option Op → τ → Option (Option Op) × τ)
     (hf : ∀ c o t, f c o t = f c.g o t) (nv : Nat) :
     ∀ (k p : Nat) (c : FastOps) (a : Cursor) (t : τ), GInv nb c → p + k ≤ c.ops.length →
-      a.lastP = prevOcc (occ c.abs) p →
+      a.lastP = prevOcc (occAt c.abs) p →
       GInv nb (sweepLoop f p k c a t).1 ∧
         (sweepLoop f p k c a t).1.abs = (sweepLoopA nv nb f p k c.abs t).1 ∧
         (sweepLoop f p k c a t).2.2 = (sweepLoopA nv nb f p k c.abs t).2 := by
@@ -196,8 +196,8 @@ theorem slotAt_append_none (s : Slots) (k q : Nat) : slotAt (s ++ List.replicate
   · rw [if_neg hq, List.getElem?_replicate, List.getElem?_eq_none (Nat.le_of_not_lt hq)]
     split <;> rfl
 
-theorem occ_append_none (s : Slots) (k : Nat) : occ (s ++ List.replicate k none) = occ s := by
-  funext q; unfold occ; rw [slotAt_append_none]
+theorem occ_append_none (s : Slots) (k : Nat) : occAt (s ++ List.replicate k none) = occAt s := by
+  funext q; unfold occAt; rw [slotAt_append_none]
 
 theorem getNode_append_none (c : FastOps) (k q : Nat) :
     ({ c with ops := c.ops ++ List.replicate k none } : FastOps).getNode q = c.getNode q := by
@@ -221,9 +221,9 @@ theorem grow_global {nb : Option Nat} {c : FastOps} (h : GInv nb c) (k : Nat) :
     unfold GInv
     rw [habs]
     have hocc := occ_append_none c.abs (k - c.ops.length)
-    have hout : ∀ q, c.abs.length ≤ q → occ c.abs q = false := by
+    have hout : ∀ q, c.abs.length ≤ q → occAt c.abs q = false := by
       intro q hq
-      cases hh : occ c.abs q with
+      cases hh : occAt c.abs q with
       | false => rfl
       | true => have := occ_lt hh; omega
     have hL : c.abs.length ≤ (c.abs ++ List.replicate (k - c.ops.length) none).length := by simp
